@@ -1,5 +1,236 @@
-use crate::util::{Args, Report};
-pub fn run(_a: &Args, _r: &mut Report) {
-    eprintln!("not implemented yet");
-    std::process::exit(2);
+//! C08 — decoded quantities stay in their physical range for every accepted frame.
+use crate::oracle::recorder::{self, Leaf};
+use crate::props::common;
+use crate::util::{fnv, guarded, hexs, Args, Report, Rng};
+use rs1090::decode::Message;
+use serde_json::json;
+use std::collections::BTreeMap;
+
+#[derive(Default)]
+pub struct KeyStats {
+    pub n: u64,
+    pub min: f64,
+    pub max: f64,
+}
+
+fn num(l: &Leaf) -> Option<f64> {
+    match l {
+        Leaf::Num(x) => Some(*x),
+        Leaf::Int(i) => Some(*i as f64),
+        _ => None,
+    }
+}
+
+/// returns Some(reason) if (key, leaf) violates its domain
+fn judge(key: &str, leaf: &Leaf) -> Option<String> {
+    if let Leaf::Num(x) = leaf {
+        if !x.is_finite() {
+            return Some(format!("{key} = {x} is not finite"));
+        }
+    }
+    match key {
+        "track" | "heading" | "wind_direction" | "selected_heading" => {
+            let x = num(leaf)?;
+            if !(x >= 0.0 && x < 360.0) {
+                return Some(format!("{key} = {x} outside [0, 360)"));
+            }
+        }
+        "roll" => {
+            let x = num(leaf)?;
+            if !(-90.0..=90.0).contains(&x) {
+                return Some(format!("roll = {x} outside [-90, 90]"));
+            }
+        }
+        "lat_cpr" | "lon_cpr" => {
+            let x = num(leaf)?;
+            if !(x >= 0.0 && x < 131072.0) {
+                return Some(format!("{key} = {x} not below 2^17"));
+            }
+        }
+        "vertical_rate" => {
+            let x = num(leaf)?;
+            if x.rem_euclid(64.0) != 0.0 || x.abs() > 32640.0 {
+                return Some(format!("vertical_rate = {x} is not a multiple of 64 within +-32640"));
+            }
+        }
+        "vrate_barometric" | "vrate_inertial" => {
+            let x = num(leaf)?;
+            if x.rem_euclid(32.0) != 0.0 || x.abs() > 16352.0 {
+                return Some(format!("{key} = {x} is not a multiple of 32 within +-16352"));
+            }
+        }
+        "groundspeed" | "IAS" | "TAS" | "wind_speed" => {
+            let x = num(leaf)?;
+            if !(x >= 0.0) || !x.is_finite() {
+                return Some(format!("{key} = {x} is negative or not finite"));
+            }
+        }
+        "Mach" => {
+            let x = num(leaf)?;
+            if !(x > 0.0 && x <= 1.0) {
+                return Some(format!("Mach = {x} outside (0, 1]"));
+            }
+        }
+        "humidity" => {
+            let x = num(leaf)?;
+            if !(0.0..=100.0).contains(&x) {
+                return Some(format!("humidity = {x} outside [0, 100]"));
+            }
+        }
+        "temperature" | "static_temperature" => {
+            let x = num(leaf)?;
+            if !(-80.0..=60.0).contains(&x) {
+                return Some(format!("{key} = {x} outside [-80, 60]"));
+            }
+        }
+        "squawk" => {
+            if let Leaf::Str(s) = leaf {
+                if s.len() != 4 || !s.bytes().all(|b| (b'0'..=b'7').contains(&b)) {
+                    return Some(format!("squawk = {s:?} is not four octal digits"));
+                }
+            } else if !matches!(leaf, Leaf::Null) {
+                return Some(format!("squawk is not a string: {leaf:?}"));
+            }
+        }
+        "callsign" => {
+            if let Leaf::Str(s) = leaf {
+                if s.chars().count() > 8 || !s.chars().all(|c| c.is_ascii_uppercase() || c.is_ascii_digit() || c == ' ' || c == '#') {
+                    return Some(format!("callsign = {s:?} outside the 6-bit character set / longer than 8"));
+                }
+            }
+        }
+        _ => {}
+    }
+    None
+}
+
+pub const TABLE_KEYS: [&str; 20] = ["track", "heading", "wind_direction", "selected_heading", "roll", "lat_cpr", "lon_cpr", "vertical_rate", "vrate_barometric", "vrate_inertial", "groundspeed", "IAS", "TAS", "wind_speed", "Mach", "squawk", "humidity", "temperature", "static_temperature", "callsign"];
+
+pub fn check_frame(r: &mut Report, bytes: &[u8], stats: &mut BTreeMap<String, KeyStats>, origin: &str) {
+    r.evaluations += 1;
+    let msg = match guarded(|| Message::try_from(bytes)) {
+        Ok(Ok(m)) => m,
+        _ => {
+            r.class("not-accepted");
+            return;
+        }
+    };
+    let v = match recorder::record(&msg) {
+        Ok(v) => v,
+        Err(_) => {
+            r.class("accepted-but-unserialisable(judged by C07)");
+            // still judge the Debug-visible struct through serde_json::Value is impossible; skip
+            return;
+        }
+    };
+    let f = recorder::flatten(&v);
+    let mut ok = true;
+    for (path, key, leaf) in &f.leaves {
+        if let Some(why) = judge(key, leaf) {
+            ok = false;
+            let shape = common::classify(&msg);
+            let shape = shape.split(':').take(2).collect::<Vec<_>>().join(":");
+            r.violation(&format!("C08:{key}:{shape}"), format!("{} ({}): {why} at {path}", hexs(bytes), common::classify(&msg)), json!({"frame": hexs(bytes), "origin": origin}));
+        }
+        if TABLE_KEYS.contains(&key.as_str()) {
+            let e = stats.entry(key.clone()).or_insert(KeyStats { n: 0, min: f64::INFINITY, max: f64::NEG_INFINITY });
+            e.n += 1;
+            if let Some(x) = num(leaf) {
+                e.min = e.min.min(x);
+                e.max = e.max.max(x);
+            }
+        }
+    }
+    if ok {
+        r.distinct(fnv(bytes));
+        for c in common::coverage_classes(&msg) {
+            r.class(&format!("in-range:{c}"));
+        }
+    }
+}
+
+pub fn run(a: &Args, r: &mut Report) {
+    r.rule = "accepted frames from the structure-aware generators (every DF, every TC/subtype, every Comm-B register built valid-biased, all CF of DF18), each numeric field boundary-biased (0, 1, max, max-1, single bit, sign bit, mid); every leaf of the recorded key->value tree is judged by the per-key domain table; thorough adds exhaustive 16-bit windows over ME / MB fields. distinct_nontrivial = distinct ACCEPTED frames with all leaves in range".into();
+    let mut stats = BTreeMap::new();
+    if let Some(p) = &a.replay {
+        let v: serde_json::Value = serde_json::from_str(&std::fs::read_to_string(p).unwrap()).unwrap();
+        check_frame(r, &hex::decode(v["replay"]["frame"].as_str().unwrap()).unwrap(), &mut stats, "replay");
+        return;
+    }
+    let mut rng = Rng::new(a.seed, a.shard, "C08");
+    let n = a.budget(1_600_000, 120_000_000);
+    for i in 0..n {
+        let df = *rng.pick(&[17u8, 17, 17, 18, 18, 20, 21, 20, 21, 20, 21, 4, 5, 0, 16, 11, (i % 32) as u8]);
+        let f = common::structured(&mut rng, df);
+        check_frame(r, &f, &mut stats, "structured");
+        if r.samples.len() < 3 && i % 1000 == 999 {
+            r.sample(json!({"frame": hexs(&f)}));
+        }
+    }
+    // Comm-B registers with strict plausibility, dedicated budget (they carry most of the ranged keys)
+    let n = a.budget(800_000, 60_000_000);
+    for i in 0..n {
+        let reg = common::REGISTERS[(i % 14) as usize];
+        let h = rng.biased(27) as u32;
+        let mb = common::commb_for(&mut rng, reg, (h & 0x1fff) as u16);
+        let df = if i % 2 == 0 { 20 } else { 21 };
+        let f = crate::oracle::frames::long_ap(df, h, &mb, rng.biased(24) as u32);
+        check_frame(r, &f, &mut stats, "commb");
+    }
+    if a.thorough() {
+        use crate::oracle::bits::Bits;
+        let mut k = 0u64;
+        for tc in [5u8, 9, 19, 20, 28, 29] {
+            for st in 0..5u8 {
+                for off in [6usize, 14, 22, 30, 38, 41] {
+                    k += 1;
+                    if k % a.nshards != a.shard || (tc != 19 && st > 0) {
+                        continue;
+                    }
+                    let base = common::adsb_me(&mut rng, tc);
+                    for w in 0..65536u64 {
+                        let mut b = Bits::from(&base);
+                        b.set(1, 5, tc as u64);
+                        if tc == 19 {
+                            b.set(6, 3, st as u64);
+                        }
+                        b.set(off.max(9), 16, w);
+                        let mut me = [0u8; 7];
+                        me.copy_from_slice(&b.bytes);
+                        check_frame(r, &crate::oracle::frames::df17(5, 0x3c6589, &me), &mut stats, "window16");
+                    }
+                }
+            }
+        }
+        for reg in ["bds40", "bds44", "bds45", "bds50", "bds60"] {
+            for off in [1usize, 9, 17, 25, 33, 41] {
+                k += 1;
+                if k % a.nshards != a.shard {
+                    continue;
+                }
+                for rep in 0..4 {
+                    let base = common::commb_for(&mut rng, reg, 0x0c30);
+                    for w in 0..65536u64 {
+                        let mut b = Bits::from(&base);
+                        b.set(off, 16, w);
+                        let mut mb = [0u8; 7];
+                        mb.copy_from_slice(&b.bytes);
+                        check_frame(r, &crate::oracle::frames::df21(0, 0, 0, 0x0c30 + rep, &mb, 0x3c6589), &mut stats, "window16");
+                    }
+                }
+            }
+        }
+    }
+    let mut per_key = serde_json::Map::new();
+    for (k, s) in &stats {
+        r.class_n(&format!("key:{k}"), s.n);
+        if s.min.is_finite() {
+            r.min(&format!("{k}"), s.min);
+            r.max(&format!("{k}"), s.max);
+        }
+        per_key.insert(k.clone(), json!(s.n));
+    }
+    if !a.asan {
+        r.extra.insert("mandatory".into(), json!(TABLE_KEYS.iter().map(|k| format!("key:{k}")).collect::<Vec<_>>()));
+    }
 }
